@@ -161,7 +161,7 @@ def run_check(cid, tier, only=None, verbose=True):
         r = j.result
         for k, mdl in enumerate(r.get('models', [])):
             rjobs.append((j, 'model', k, Job(cid, tier, j.idx, 'conc', f'replay{k}', 300, mdl['values'])))
-        for k, v in enumerate(r.get('validation', [])):
+        for k, v in enumerate(r.get('validation', []) if not insts[j.idx].twin else []):
             rjobs.append((j, 'val', k, Job(cid, tier, j.idx, 'conc', f'val{k}', 300, v['values'])))
     run_jobs([x[3] for x in rjobs])
 
